@@ -18,6 +18,7 @@ type SpecCtx struct {
 	lenient  bool
 	nbind    int
 	noFn     bool
+	hyp      bool // evaluating a hypothesis (quantifiers get one version per indexed array)
 }
 
 func (x *Exec) specCtx(st *State, cur, old *HeapView, names map[string]Value) *SpecCtx {
@@ -28,6 +29,13 @@ type specErr struct{ msg string }
 
 func (sc *SpecCtx) fail(format string, a ...interface{}) {
 	panic(unsupportedErr{"contract: " + fmt.Sprintf(format, a...)})
+}
+
+// evalHyp evaluates a formula that is going to be assumed.
+func (sc *SpecCtx) evalHyp(e *Expr) string {
+	sc.hyp = true
+	defer func() { sc.hyp = false }()
+	return sc.evalBool(e)
 }
 
 func (sc *SpecCtx) evalBool(e *Expr) string {
@@ -114,6 +122,48 @@ func (sc *SpecCtx) pkgConst(name string) (Value, bool) {
 		return boolV("false"), true
 	case constant.String:
 		return sc.st.strLit(constant.StringVal(c.Val())), true
+	}
+	return Value{}, false
+}
+
+// pkgGlobal resolves pkg.Name for an imported package of the function under proof.
+func (sc *SpecCtx) pkgGlobal(pkgName, name string) (Value, bool) {
+	if _, shadow := sc.names[pkgName]; shadow {
+		return Value{}, false
+	}
+	if _, shadow := sc.bound[pkgName]; shadow {
+		return Value{}, false
+	}
+	fn := sc.x.fx.fn
+	if fn == nil {
+		return Value{}, false
+	}
+	var pkg *types.Package
+	if fn.Pkg != nil {
+		pkg = fn.Pkg.Pkg
+	} else if o := fn.Origin(); o != nil && o.Pkg != nil {
+		pkg = o.Pkg.Pkg
+	}
+	if pkg == nil {
+		return Value{}, false
+	}
+	for _, imp := range pkg.Imports() {
+		if imp.Name() != pkgName {
+			continue
+		}
+		obj := imp.Scope().Lookup(name)
+		switch o := obj.(type) {
+		case *types.Var:
+			a := Addr{Root: "0", Key: "global:" + typeKeyPkg(imp) + "." + name, Ty: o.Type()}
+			return sc.load(a), true
+		case *types.Const:
+			switch o.Val().Kind() {
+			case constant.Int:
+				return Value{K: VInt, T: smtIntS(o.Val().ExactString()), Ty: o.Type()}, true
+			case constant.String:
+				return sc.st.strLit(constant.StringVal(o.Val())), true
+			}
+		}
 	}
 	return Value{}, false
 }
@@ -255,6 +305,11 @@ func (sc *SpecCtx) eval(e *Expr) Value {
 		base := sc.eval(e.Args[0])
 		return sc.load(sc.derefAddr(base, e))
 	case "sel":
+		if e.Args[0].Op == "ident" {
+			if v, ok := sc.pkgGlobal(e.Args[0].Name, e.Name); ok {
+				return v
+			}
+		}
 		base := sc.eval(e.Args[0])
 		if base.K == VStruct {
 			s := base.Ty.Underlying().(*types.Struct)
@@ -376,16 +431,7 @@ func (sc *SpecCtx) quant(e *Expr) Value {
 		delete(sc.bound, e.Name)
 	}
 	sc.nbind--
-	if e.Op == "forall" {
-		if rng != "" {
-			body = implies(rng, body)
-		}
-		return boolV(fmt.Sprintf("(forall ((%s %s)) %s)", name, sort, body))
-	}
-	if rng != "" {
-		body = and(rng, body)
-	}
-	return boolV(fmt.Sprintf("(exists ((%s %s)) %s)", name, sort, body))
+	return boolV(mkQuantM(e.Op, name, sort, rng, body, sc.hyp))
 }
 
 func (fx *FuncExec) nextBinder() int {
@@ -521,6 +567,13 @@ func (sc *SpecCtx) call(e *Expr) Value {
 			t = v.Arr
 		}
 		return boolV(fmt.Sprintf("(>= %s %s)", t, sc.brkOld()))
+	case "byteat": // byteat(a, i): byte i of backing array a
+		a, i := sc.eval(e.Args[0]), sc.eval(e.Args[1])
+		h := st.heapTermIn(sc.cur, "elem:uint8", 2, "Int")
+		return intV("(select (select " + h + " " + a.T + ") " + i.T + ")")
+	case "allocated_at_entry":
+		a := sc.eval(e.Args[0])
+		return boolV(fmt.Sprintf("(and (< 0 %s) (< %s %s))", a.T, a.T, sc.brkOld()))
 	case "real":
 		v := sc.eval(e.Args[0])
 		if v.K == VReal {
